@@ -1387,6 +1387,8 @@ class Executor:
                                    z3.BoolVal(False),
                                    f"the loop at line {node.lineno} ends within {n - 1} iterations")
                         raise PathEnd()
+                    if self._abstract_loop(node, frame):
+                        break
                     raise OutOfReach(f"loop at line {node.lineno} of "
                                      f"{frame.func.qualname} needs an invariant")
                 try:
@@ -1398,6 +1400,38 @@ class Executor:
             yield from self.exec_block(node.orelse, frame)
             return
         yield from spec.run_while(self, node, frame, no)
+
+    def _abstract_loop(self, node, frame):
+        """a while loop without a contract that does not end within the
+        unrolling limit: if its body only assigns local names (no break, return,
+        yield, await, call with effects on objects is not excluded - see
+        below), continue with the weakest invariant: every assigned name
+        arbitrary, the condition false.  Sound over-approximation of the
+        states after the loop; proofs may fail on it, they cannot wrongly pass."""
+        names = set()
+        for n in ast.walk(ast.Module(body=node.body, type_ignores=[])):
+            if isinstance(n, (ast.Break, ast.Return, ast.Yield, ast.YieldFrom, ast.Await, ast.Call,
+                              ast.FunctionDef, ast.AsyncFunctionDef, ast.Raise, ast.Try, ast.With)):
+                return False
+            if isinstance(n, (ast.Assign, ast.AugAssign, ast.AnnAssign)):
+                targets = n.targets if isinstance(n, ast.Assign) else [n.target]
+                for t in targets:
+                    if not isinstance(t, ast.Name):
+                        return False
+                    names.add(t.id)
+        from .api import fresh_like
+        for name in sorted(names):
+            cur = frame.env.lookup(name) if frame.env.has(name) else None
+            try:
+                frame.env.set(name, fresh_like(self, cur, name + "'"))
+            except OutOfReach:
+                return False
+        t = self.truth_term(self.eval(node.test, frame))
+        if t is None:
+            return False
+        self.assume(z3.Not(t))
+        self.notes.append(f"loop at line {node.lineno}: abstracted (assigned names arbitrary, condition false)")
+        return True
 
     def s_For(self, node, frame):
         spec, no = self.loop_spec(frame, node)
